@@ -69,6 +69,17 @@ CHECKS["C19"] = dict(
   note="Trusted: symgo executor (maps keyed by pointers), z3. Outside: the default comparer VersionCompareSemantic (hashicorp/go-version, regexp based) - assumed to be a total preorder that errs exactly on unparseable input.",
   ref="DESIGN.md §4 C19")
 
+CHECKS["C12"] = dict(
+  technique="symbolic execution of go/ssa with SMT (z3) plus bounded schedule exploration (coroutine scheduler, preemption bound) for concurrent channel creation",
+  text="Bounded model checking of Conn.NewChannel (setup/PROTACK handshake with a symbolic acknowledgement type), Conn.getValidChannelId, Conn.ReadFrom routing (packets with symbolic channel ids over three registered channels and an unregistered id: delivered to exactly the named channel in order, unknown ids reported on the connection error queue) and, under every interleaving within the preemption bound, two goroutines creating channels concurrently (ids distinct, both registered, both handshakes complete). Outgoing channel id and consecutive packet numbers are decided by C01's harnesses (symbolic id 0..65535 and counter).",
+  note="Claimed in part. Trusted: symgo executor and scheduler (interleaving points: mutex/rwmutex, channel, atomic, Pool operations; sequential consistency), z3. Bounds: 2 creating goroutines, <=2 preemptions; 2 (quick) / 3 (thorough) routed packets. Schedule counterexamples are corroborated natively (repetition, finally under the Go race detector). Outside: data races on plain memory accesses (the engine has no happens-before race detector), 4..16 channels, GOMAXPROCS effects.",
+  ref="DESIGN.md §4 C12")
+CHECKS["C13"] = dict(
+  technique="symbolic execution of go/ssa with SMT (z3) incl. RWMutex/channel/select/context models and simulated goroutines; deadlock is an outcome",
+  text="Bounded model checking of Channel.Close/NextPackage/NextPackageUntil/QueuePackage/SendRemainingPackets/SendPackage/Reset/WritePacket, sendPackets and Conn.Close. Decided: after Close every method reports ErrChannelClosed (incl. a second Close), sends nothing and delivers nothing; a send with a cancelled own or connection context writes nothing and returns an error wrapping the context error; a receive with a cancelled context returns an already queued package first (queue fill 0..3) and otherwise an error wrapping the context error; Conn.Close closes every channel and the transport and cancels the context; closing the main channel with a peer that never answers the logout returns (deadline model). Two blocking histories are decided as deadlock outcomes and reported as known findings.",
+  note="Trusted: symgo executor (RWMutex with writer preference, select as nondeterministic choice among ready cases, deadlines expiring after at most 3 polls), z3. Bounds: <=2 goroutines. Known findings: F-C13-close-blocks-on-full-queue, F-C13-close-blocks-on-waiting-consumer. Outside: wall-clock latency, goroutine counts after Conn.Close, preemptive interleavings of Close with senders.",
+  ref="DESIGN.md §4 C13")
+
 NOT_APPLICABLE = {
 }
 
